@@ -1,6 +1,7 @@
 import IgVerif.Schema
 import IgVerif.Model.ConfB
 import IgVerif.Model.Closed
+import IgVerif.Model.ModuleOrder
 /-! `igdriver <model>`: reads one op per line on stdin, prints one answer per line.
 Byte strings are hex ("-" = empty). -/
 open IgVerif
@@ -175,8 +176,30 @@ partial def loop {σ : Type} (h : IO.FS.Stream) (step : σ → List String → I
   IO.println out
   loop h step s'
 
+/-- `order a:b,c;b:;c:d` -/
+def parseDeps (s : String) : MO.Deps :=
+  let entries := (s.splitOn ";").filter (· != "")
+  let raw := entries.map fun e =>
+    match e.splitOn ":" with
+    | [k, v] => (k, (v.splitOn ",").filter (· != ""))
+    | [k] => (k, [])
+    | _ => ("", [])
+  -- build through the map operations so that keys and sets are ordered as std::map / std::set order them
+  raw.foldl (fun (d : MO.Deps) p => p.2.foldl (fun d b => d.addEdge p.1 b) (d.touch p.1)) []
+
+def orderStep (_ : Unit) (toks : List String) : IO (Unit × String) := do
+  match toks with
+  | ["order", g] =>
+    let r := MO.order (parseDeps g)
+    let br := ",".intercalate (r.broken.map fun p => p.1 ++ ">" ++ p.2)
+    return ((), s!"libs={",".intercalate r.libs} broken={br} finished={if r.finished then 1 else 0}")
+  | ["order"] =>
+    return ((), "libs= broken= finished=1")
+  | _ => return ((), "bad-op")
+
 def main (args : List String) : IO UInt32 := do
   let stdin ← IO.getStdin
   match args with
   | ["db"] => loop stdin dbStep ({} : St); return 0
+  | ["order"] => loop stdin orderStep (); return 0
   | _ => IO.eprintln "usage: igdriver <model>"; return 2
